@@ -10,6 +10,7 @@
 mod c08;
 mod c14;
 mod c15;
+mod c16;
 mod c17;
 mod c18;
 mod common;
@@ -108,6 +109,7 @@ fn main() {
             "c18" => c18::replay(&v),
             "c14" => c14::replay(&v),
             "c17" => c17::replay(&v),
+            "c16" => c16::replay(&v),
             k => harness_error(&format!("unknown replay kind {k}")),
         };
         match vs.first() {
@@ -183,6 +185,16 @@ fn main() {
                 "which lines before the NUL are still printed legitimately depends on the strategy and read history (the property allows dropping or cutting off); only prefix-ness, NUL-freeness and the presence/absence of the notice are demanded".into(),
             ],
             |sub, acc, ctx, thorough| c14::run_workload(sub, acc, ctx, thorough),
+        ),
+        "C16" => drive(
+            &opts,
+            "fault_enumeration",
+            "c16",
+            opts.cases(400, 6000),
+            jobs,
+            "CLI leg: per generated file (1-40 lines) and (A, B, invert, mmap or reads under syscall fragmentation) one run of the real rg -m N -A a -B b for EVERY N in 0..#matches+1; the printed line numbers must be exactly the lines a limit-free search delivers up to A lines past the N-th selected line, with the matching exit status.",
+            vec!["literal pattern; the context-window model is the textbook one (a line after a match is after-context, else before-context of a later match)".into()],
+            |sub, acc, ctx, thorough| c16::run_workload(sub, None, acc, ctx, thorough),
         ),
         "C17" => drive(
             &opts,
